@@ -126,7 +126,7 @@ UNITS = {
         "sources": [
             SYMBOL_SRC,
             ("src/http/mod.rs", ["struct:Version", "const:VERSION", "struct:HTTP", "fn:HTTP::version_list"]),
-            ("src/ext/string_ext/mod.rs", ["struct:StringExt", "fn:StringExt::truncate_new_line_carriage_return"]),
+            ("src/ext/string_ext/mod.rs", ["struct:StringExt", "fn:StringExt::truncate_new_line_carriage_return", "fn:StringExt::filter_ascii_control_characters"]),
             ("src/header/mod.rs", ["struct:Header", "consts:Header"]),
             ("src/request/mod.rs", ["struct:Request", "struct:Method", "const:METHOD", "consts:Request", "fn:Request::get_header", "fn:Request::method_list",
                                     "fn:Request::parse_method_and_request_uri_and_http_version_string", "fn:Request::parse_http_request_header_string",
@@ -438,6 +438,8 @@ def owner(unit, f):
             return ("C09", "C03", "C02")
         if "effective_range" in f.snippet:
             return ("C03", "C09")
+        if "range_error_kept" in f.snippet:
+            return ("C03", "C05", "C02")      # an error of the range pipeline (416) must not be swallowed on the way out of the lookup
         if "error_status_kept" in f.snippet:
             return ("C03", "C05", "C02")
         if f.kind in SAFETY_KINDS:
